@@ -12,4 +12,4 @@ for p in "$@"; do
 done
 git -C /repo checkout -- . && git -C /repo clean -fdq
 # the runs above rewrote generated files and evidence from the patched tree: restore the committed ones
-git -C /verif checkout -- coq/theories/Facts.v coq/theories/SrcConsts.v evidence 2>/dev/null
+git -C /verif checkout -- coq/theories/Facts.v coq/theories/SrcConsts.v coq/theories/BlockFacts.v evidence 2>/dev/null
